@@ -77,6 +77,15 @@ def clear_all():
         _CACHED = _cached_functions()
     for f in _CACHED:
         f.cache_clear()
+    # CPython's own typing caches key subscriptions by equality (`Final[A | B]` is served from `Final[B | A]`): a
+    # program must not inherit the member order of an equal annotation built by an earlier program of this process
+    import typing as _typing
+
+    for f in list(getattr(_typing, "_cleanups", ())):
+        try:
+            f()
+        except Exception:
+            pass
     # the slotted() decorator keeps a module-level re-entrancy set
     st = getattr(typelib.py.classes, "_stack", None)
     if st is not None:
